@@ -49,12 +49,16 @@ CLAIMED = {
  "C12": ("DESIGN.md §4 C12, §8.2",
          "Narrow: the registry clause. Deductive proof on the real pkg/router code that the registry behaves as a map: Add returns the previous client and stores the new one, Remove returns and removes (no-op when absent), Has agrees with the map, every other name is untouched; change callbacks are called exactly once per transition, never for a no-op, and never while the lock is held (callback log with lock state); Get returns a registered client as it is without asking anybody, otherwise asks the fallback first and then the factory, remembers a factory client but not a fallback client, answers NotFound (nil client, registry untouched) when nobody has one; in interference mode (registry arbitrary again at every lock acquisition) the factory insert happens only while the name is still absent under the write lock and the call returns what the registry holds after that, so concurrent first Gets commit a single client.",
          "Not decided by this family and not claimed: the per-method forwarding of the ~65 generated routers and wrappers (request/response/stream/metadata pass-through), the default-name interceptor, and 'checked-in files equal generator output' (a diff against protoc output, which is not installed). Assumed: factory/fallback/onChange do not touch the router's registry directly; clients are non-nil (Add's precondition)."),
+ "C03": ("DESIGN.md §4 C03, §8.2",
+         "Narrow: the per-step facts convergence rests on, proved on the real code in interference mode. (1) Subscribing: Value.onUpdate and Collection.onUpdate take the snapshot and register the bus listener inside one critical section of the resource's lock (lock state and lock generation recorded at the tracked Listen/itemSlice calls), so no commit falls between snapshot and subscription; with updates-only no snapshot is taken. (2) The bus: Listen appends a fresh listener with an open channel under the write lock; Send offers the event to every listener of its snapshot exactly once, in registration order, stopping only when the sender's context is done; collect rebuilds the list only from the listeners registered at the moment it holds the write lock (a listener registered during an in-flight Send survives). (3) Per subscriber: the forwarding goroutines of C04 (seed first, then each event's include verdict, projected).",
+         "Not decided: that the fold of what a real reader receives equals Get/List once writers stop (a whole-history statement over goroutine schedules and channel buffering; the lossy path additionally needs mergeCollectionExcess, which uses container/list and is outside the subset). Publish-after-unlock ordering of Value.Set/Collection.Update versus Delete (which publishes under the lock) is not analysed."),
+ "C10": ("DESIGN.md §4 C10, §8.2",
+         "Narrow: safety clauses of shutdown, proved on the real code in both sequential and interference mode: listener.send puts an event on the channel at most once and only while the channel is open (lock invariant 'ch == nil or not closed' under listener.m; a nil channel is never ready), and reports whether it did; listener.stop closes the channel exactly once and forgets it, so no later send can reach it and no double close can happen; Bus.Send/collect/Listen keep the listener list well formed; both Pull forwarding goroutines close their output on every exit path and never send on it after closing (C04).",
+         "Not decided by contracts: deadlock freedom, goroutine termination, stall bounds, PullID ending on REMOVE (its goroutine is not under contract), DropExcess/mergeCollectionExcess exit conditions."),
 }
 
 NOT_APPLICABLE = {
- "C03": "Not claimed in this revision: convergence of a subscriber's folded view is a whole-history property over goroutines and channels; the per-step pieces this family can decide are proved under other ids (atomic snapshot+subscribe under the read lock: C11; per-event forwarding and seeds: C04; fold preservation of merged events: C09). The Bus.Send/Listen delivery contract that would connect them (every live listener gets each event once, in order) is not under contract yet.",
  "C07": "Not claimed in this revision: the ownership ghost state (no write ever targets a message that is stored or was handed out) is not built. Individual isolation clauses are proved under other ids: every write stores a deep-fresh message that is neither the caller's nor the previous one and leaves the previous one untouched (C01 Value.set/Collection.Update fresh-store, old-untouched, items-immutable), reads filter clones only (C06), parent trait lists are copied before editing (C20, after a fix). masks.pruneEmpty (reflection walk) and the metadata/enter-leave models are not under contract.",
- "C10": "Not claimed in this revision: shutdown under any timing is about goroutine termination and deadlock freedom, which contracts over single functions do not decide. Proved under other ids: both Pull forwarding goroutines close their output on every exit path and never send after close (C04 #post.closed, safety obligations), listener/bus lock discipline (C11).",
  "C14": "Not claimed: read-your-writes through wrapper, router and server is a property of ~30 generated/handwritten server stacks; the schematic checker over all servers was not built, and the forwarding code is mostly generated gRPC plumbing outside the VC subset. The register it rests on is C01/C04/C06.",
  "C19": "Not claimed in this revision: the electric model's invariants speak about field values (normal, id) of messages stored through Collection.Update, whose contents are abstract in the resource contracts (merge semantics are an assumed library contract), so 'at most one normal mode' cannot be carried through the store modularly; contracts for the control-flow clauses (delete refuses the active id, start-time stamp, not-found table) are not written yet.",
  "C13": "Differential property against grpc-go's transport (an external implementation with no contract); mechanism is goroutines on unbuffered channels + context cancellation, outside the contract/VC subset. Only peripheral clauses would be reachable, so it is not claimed (DESIGN.md §4 C13).",
